@@ -61,6 +61,14 @@ def _strategy(draw):
                                     "structured", "orderbook", "multi"]))
         a = gen.draw_any(draw, cx, cls, "a%d" % i)
         a["naive"] = True
+        if a["type"] in ("chp", "plant") and draw(st.booleans()):
+            # start / shutdown profiles without ramp_freq: interpreted in the main time unit of the grid at hand
+            a["min_cap"] = max(a["min_cap"], 0.25 * a["max_cap"])
+            a["start_ramp_lower_bounds"] = [0.5 * a["min_cap"]]
+            a["start_ramp_upper_bounds"] = [0.5 * a["min_cap"]]
+            if draw(st.booleans()):
+                a["shutdown_ramp_lower_bounds"] = [0.5 * a["min_cap"]]
+                a["shutdown_ramp_upper_bounds"] = [0.5 * a["min_cap"]]
         # interval dictionaries in the forms that get normalised
         if a["type"] in ("simple", "contract", "multi") and draw(st.booleans()):
             v = a["max_cap"] if isinstance(a["max_cap"], (int, float)) else 1.0
@@ -81,7 +89,7 @@ def _strategy(draw):
     steps = []
     for _ in range(draw(st.integers(3, 12))):
         op = draw(st.sampled_from(["setup_asset", "setup_asset", "setup_portfolio", "setup_portfolio", "setup_split",
-                                   "setup_fix", "optimize", "extract", "reload", "cost_samples", "shortcut"]))
+                                   "setup_fix", "optimize", "extract", "reload", "cost_samples", "shortcut", "json", "json"]))
         steps.append({"op": op, "k": draw(st.integers(0, n - 1)), "g": draw(st.integers(0, ngr - 1)),
                       "frame": draw(st.booleans()), "interval": draw(st.sampled_from(["2h", "3h", "d"]))})
     return {"grid": g0, "grids": grids, "assets": assets, "prices_per_grid": prices, "steps": steps}
@@ -118,6 +126,18 @@ def same_snapshot(a, b):
     return all(np.array_equal(a[3][k], b[3][k]) for k in a[1])
 
 
+def strip_grids(js):
+    import json
+
+    def walk(o):
+        if isinstance(o, dict):
+            return {k: walk(v) for k, v in o.items() if k != "timegrid"}
+        if isinstance(o, list):
+            return [walk(v) for v in o]
+        return o
+    return json.dumps(walk(json.loads(js)), indent=1, sort_keys=True)
+
+
 def compare(out, live, fresh, what):
     if is_err(fresh) and is_err(live):
         return
@@ -128,7 +148,12 @@ def compare(out, live, fresh, what):
             out.fail("%s: works on the re-used objects but raises %s on fresh ones" % (what, fresh.short()))
         return
     if isinstance(live, np.ndarray) or isinstance(fresh, np.ndarray):
-        if not np.allclose(np.asarray(live, float), np.asarray(fresh, float), rtol=1e-9, atol=1e-12):
+        try:
+            la, fa = np.asarray(live, float), np.asarray(fresh, float)
+        except Exception:
+            out.fail("%s: the cost vector contains objects that are not numbers (%s)" % (what, sorted(set(type(v).__name__ for v in np.asarray(live, object).ravel()))[:3]))
+            return
+        if la.shape != fa.shape or not np.allclose(la, fa, rtol=1e-9, atol=1e-12):
             out.fail("%s: cost vector differs from fresh objects" % what)
         return
     ops_l = live.ops if hasattr(live, "ops") else [live]
@@ -252,6 +277,19 @@ def check(spec):
                 last = (last[0], last[1], last[2], r)
         elif op == "extract" and last is not None and len(last) == 4:
             eao_call(extract_output, live_pf, last[0], last[3], last[1])
+        elif op == "json":
+            # the parameters of an asset, as saved, are those of a fresh asset whatever was set up before
+            sl = eao_call(serialization.to_json, live_assets[k])
+            sf = eao_call(serialization.to_json, build_assets(spec)[k])
+            if not is_err(sl) and not is_err(sf):
+                # a wrapped portfolio legitimately remembers the last grid it was set up with
+                sl, sf = strip_grids(sl), strip_grids(sf)
+            if not is_err(sl) and not is_err(sf) and sl != sf and k not in reloaded:
+                d = [(x.strip(), y.strip()) for x, y in zip(sl.splitlines(), sf.splitlines()) if x != y][:2]
+                out.fail("%s: parameters of asset %s changed by earlier set-ups (saved JSON differs from a fresh asset's: %s)"
+                         % (what, spec["assets"][k]["name"], d))
+            if is_err(sl) and not is_err(sf):
+                out.fail("%s: to_json of asset %s raises %s after earlier set-ups" % (what, spec["assets"][k]["name"], sl.short()))
         elif op == "reload":
             s = eao_call(serialization.to_json, live_assets[k])
             if is_err(s):
